@@ -113,8 +113,8 @@ def run(ctx):
     ctx.specdir(SPEC)
     jobs = [m_main, m_sim, m_dev,
             gen("GenNamesysD3.cfg" if q else "GenNamesysD4.cfg", workers=4),
-            gen("GenNamesysPubQ.cfg" if q else "GenNamesysPub.cfg", workers=4),
-            gen("GenNamesysChainQ.cfg" if q else "GenNamesysChain.cfg", workers=4),
+            (gen("GenNamesysPubSim.cfg", simulate=10, depth=1500) if q else gen("GenNamesysPub.cfg", workers=4)),
+            (gen("GenNamesysChainSim.cfg", simulate=10, depth=2500) if q else gen("GenNamesysChain.cfg", workers=4)),
             gen("GenNamesysSim.cfg", simulate=8 if q else 120, depth=1000),
             gen("GenNamesysSim2.cfg", simulate=4 if q else 60, depth=1000)]
     import time as _t
@@ -127,9 +127,9 @@ def run(ctx):
     if ctx.brokens:
         return
     d4, pub, chn, sim, sim2 = outs[3:]
-    # seeded samples of the two large families (quick: of all length-2 sequences; thorough: of all length-3 sequences);
-    # the one-name core family is always replayed completely
-    k = 800 if q else 20000
+    # the two large families: quick = TLC-simulated length-4 sequences over the same alphabets; thorough = seeded
+    # sample of ALL length-3 sequences.  The one-name core family is always replayed completely.
+    k = 900 if q else 20000
     pub = ctx.rng.sample(pub, min(len(pub), k))
     chn = ctx.rng.sample(chn, min(len(chn), k))
     fams = [("core", d4), ("pub", pub), ("chain", chn), ("sim", sim), ("sim2", sim2)]
